@@ -45,6 +45,8 @@ where
             }
 
             if self.stream.read_buf(&mut self.buffer).await? == 0 {
+                #[cfg(feature = "verif")]
+                crate::verif::point("conn.eof", &[("buffered", self.buffer.len() as u64)]);
                 if self.buffer.is_empty() {
                     // Peer closed when all data is parsed
                     return Ok(None);
@@ -57,6 +59,8 @@ where
                     .into());
                 }
             }
+            #[cfg(feature = "verif")]
+            crate::verif::point("conn.read", &[("buffered", self.buffer.len() as u64)]);
         }
     }
 
